@@ -40,6 +40,14 @@ fn bigrot(dir: &std::path::Path) -> ! {
     println!("P persist {}", cls(db.persist(PersistMode::SyncAll)));
     use std::io::Write;
     let _ = std::io::stdout().flush();
+    // dropping the last handles must return (the worker is gone, one way or the other)
+    let done = std::sync::Arc::new(std::sync::atomic::AtomicBool::new(false));
+    let d2 = done.clone();
+    std::thread::spawn(move || { drop(a); drop(b); drop(db); d2.store(true, std::sync::atomic::Ordering::Release); });
+    let t1 = std::time::Instant::now();
+    while !done.load(std::sync::atomic::Ordering::Acquire) && t1.elapsed() < std::time::Duration::from_secs(10) { std::thread::sleep(std::time::Duration::from_millis(20)); }
+    println!("D {}", if done.load(std::sync::atomic::Ordering::Acquire) { "returned" } else { "hung" });
+    let _ = std::io::stdout().flush();
     std::process::exit(0)
 }
 
